@@ -567,6 +567,12 @@ def rule_qmin(ctx, kernels=None, rule="qmin"):
                "" if okk else "loop is not exactly range(<depth parameter>)")
         if not lends:
             continue
+        # no answer is given before every row was visited
+        early = [r for r in rets if loops and not (r.line > loops[0].end_lineno and not r.loops)]
+        ctx.ob(rule, k, early[0].node if early else k.node, "%s: returns only after the row loop" % k.name,
+               "the estimate is returned only after all rows were examined", not early,
+               "" if not early else "`%s` answers before/inside the loop over the rows" % src(k, early[0].node, 50))
+        rets = [r for r in rets if r not in early]
         # (2) the accumulator: the name returned
         acc = None
         for r in rets:
